@@ -7,6 +7,7 @@ THEOREMS = ["Lou.C12.arena_alloc_inv", "Lou.C12.arena_objects_disjoint", "Lou.C1
             "Lou.C12.checkImage_sound", "Lou.C12.checkTable_sound", "Lou.C12.checkTable_defsFound", "Lou.C12.lookup_complete",
             "Lou.C12.lookup_complete_char", "Lou.C12.fwd_chain_pairwise", "Lou.C12.fwd_buckets_disjoint",
             "Lou.C12.compileEntry_invF", "Lou.C12.compile_consistent", "Lou.C12.compile_consistent_unfinalised",
+            "Lou.C12.compile_defsFound", "Lou.C12.compile_defsFound_unfinalised",
             "Lou.Chain.insR_sorted", "Lou.C12.insR_charSorted"]
 
 CLAIM = dict(
@@ -23,7 +24,11 @@ CLAIM = dict(
           "length) hold; (3) lookup_complete — in a consistent table a linked rule is in the bucket the lookup computes and the "
           "chain walk stops at it or at an earlier member; (4) compile_consistent(_unfinalised) — EVERY table the Lean compile "
           "model produces for entries of the fragment F0' (any prefix = any number of run-time additions, finalised or not) "
-          "satisfies all of TableConsistent (invariant CInvF over putChar/putDots/addRule/the four chain inserters). "
+          "satisfies all of TableConsistent (invariant CInvF over putChar/putDots/addRule/the four chain inserters); "
+          "(5) checkTable_defsFound / compile_defsFound(_unfinalised) — an empty checker result also means that every character and "
+          "every cell of a linked character definition has its record in the character / cell buckets (a record unlinked from its "
+          "bucket chain is a violation), and every table of the compile model has that property; the image checker also demands "
+          "that an indicator or emphasis slot designates a rule of exactly the opcode the slot is for. "
           "Checked on every run (translation validation): the proved checkers are executed by the Lean driver on the image of "
           "the REAL compiler — logical table from DUMP, every stored reference with the size its layout needs from RAWDUMP (walks "
           "buckets, chains, character/cell records, indicator and emphasis slots, decoded pass programs, match patterns, "
